@@ -1,7 +1,7 @@
 #!/bin/bash
 # usage: seed_run.sh <seed-dir-name> [tier]  -- applies the seeded change to /repo, runs that property's check, reverts
 S=$1; TIER=${2:-quick}
-PID=${S%%-*}
+PID=${CHECK:-${S%%-*}}
 cd /repo || exit 2
 if [ -n "$(git status --porcelain)" ]; then echo "/repo not clean"; exit 2; fi
 git apply /verif/seeded/$S/patch.diff || { echo "patch failed"; exit 2; }
